@@ -161,7 +161,7 @@ def block_evaluators(prog):
         if "eval::Escape" not in f.locals[0]:
             continue
         tys = [f.locals[i] for i in range(1, f.arg_count + 1)]
-        if any(anchors.is_chain_ty(prog, t) for t in tys) and BLOCK_TY in tys:
+        if any(anchors.is_chain_ty(prog, t) for t in tys) and any(anchors.is_seq_ref(t, "ast::Stmt") for t in tys):
             out.append(f)
     return out
 
@@ -187,12 +187,14 @@ def rule_R04_3(ctx):
             if c.is_ptr or c.res not in bes:
                 continue
             # is the block argument the stmts of a Func value?
-            bi = [i for i, t in enumerate(c.argtys) if t == BLOCK_TY]
+            bi = [i for i, t in enumerate(c.argtys) if anchors.is_seq_ref(t, "ast::Stmt")]
             si = [i for i, t in enumerate(c.argtys) if anchors.is_chain_ty(prog, t)]
             if not bi or not si:
                 continue
             ob = pv.origins(f, c.args[bi[0]], ("*",))
-            from_func = any(_mentions_field(x, FUNC, "stmts") for x in ob)
+            # (any field of the Func value but its captured chain: `stmts`
+            # itself, or a definition struct that holds it)
+            from_func = any(_mentions_adt_field(x, FUNC, other_than="closure") for x in ob)
             if not from_func:
                 continue
             found += 1
@@ -227,6 +229,15 @@ def _mentions_field(origin, adt, fname, prog=None):
             idx = _FIELD_IDX.get((adt, fname))
             if idx is not None and p[1] == idx:
                 return True
+    return False
+
+
+def _mentions_adt_field(origin, adt, other_than=None):
+    pi = origin[-1] if origin and isinstance(origin[-1], tuple) else ()
+    skip = _FIELD_IDX.get((adt, other_than))
+    for p in pi:
+        if p != "*" and isinstance(p, tuple) and len(p) > 3 and p[0] == "f" and p[2] == adt and p[1] != skip:
+            return True
     return False
 
 
